@@ -11,6 +11,7 @@ const char* const OP_NAMES[OP_COUNT] = {
 	"SAVE", "LOAD", "CRASH_RESTART", "CLEAN_RESTART",
 	"ENTER", "EXIT", "COPY", "REPLAY_TRANSITION",
 	"DELIVER", "LOGGER_ATTACH", "LOGGER_DETACH",
+	"CHANNEL_DROP", "CHANNEL_DUP", "CHANNEL_SWAP",
 	"CONSTRUCT"
 };
 const char* const METHOD_NAMES[M_COUNT] = {
@@ -19,7 +20,7 @@ const char* const METHOD_NAMES[M_COUNT] = {
 };
 const char* const ACTION_NAMES[A_COUNT] = {
 	"none", "cancel", "changeTo", "changeWith", "succeedSelf", "failSelf", "succeed", "fail",
-	"planAppend", "planAppendWith", "planRemoveNth", "planClear", "planWalk"
+	"planAppend", "planAppendWith", "planRemoveNth", "planClear", "planWalk", "loggerAttach", "loggerDetach"
 };
 static const char* const WHO_NAMES[4] = { "any", "root", "active", "state" };
 
@@ -63,7 +64,7 @@ static std::string action_text(const SutAction& a) {
 
 std::string case_to_text(const Case& c) {
 	std::ostringstream o;
-	o << "case fill=" << int(c.fill) << " paint=" << c.paint << " logger0=" << int(c.logger0) << " replicas=" << int(c.replicas) << " in_contract=" << int(c.in_contract) << "\n";
+	o << "case fill=" << int(c.fill) << " paint=" << c.paint << " logger0=" << int(c.logger0) << " replicas=" << int(c.replicas) << " in_contract=" << int(c.in_contract) << " lossy=" << int(c.lossy) << "\n";
 	for (size_t i = 0; i < c.ops.size(); ++i) {
 		const Op& op = c.ops[i];
 		o << "op " << OP_NAMES[op.kind] << " a=" << op.a << " b=" << op.b << " c=" << op.c;
@@ -121,6 +122,7 @@ bool case_from_text(const std::string& text, Case& out, std::string& err) {
 				else if (k == "logger0") out.logger0 = static_cast<uint8_t>(atoi(v.c_str()));
 				else if (k == "replicas") out.replicas = static_cast<uint8_t>(atoi(v.c_str()));
 				else if (k == "in_contract") out.in_contract = static_cast<uint8_t>(atoi(v.c_str()));
+				else if (k == "lossy") out.lossy = static_cast<uint8_t>(atoi(v.c_str()));
 			}
 		} else if (w == "op") {
 			std::string name; ls >> name; int k = find_name(OP_NAMES, OP_COUNT, name);
@@ -175,6 +177,7 @@ struct Gen {
 	int react_density = 0;  // percent chance per op to carry reactions
 	int plan_density = 0;
 	int small_targets = 0;  // bias state indices into 0..3
+	bool logger_midop = false; // attach/detach the logger from inside callbacks
 	bool story = false;     // plan story: tasks of the active state, the active state reporting, vetoes of the fired request
 
 	Gen(Rng& r, const SutInfo& i, const GenProfile& p) : rng(r), info(i), prof(p) {
@@ -280,6 +283,7 @@ struct Gen {
 				if (activation && a.kind == A_CANCEL) continue;       // out of contract (FFSM2_BREAK in initialEnter)
 				re.acts.push_back(a);
 			}
+			if (log && logger_midop && rng.chance(1, 6)) { SutAction t; memset(&t, 0, sizeof(t)); t.kind = rng.chance(1, 2) ? A_LOGGER_ATTACH : A_LOGGER_DETACH; re.acts.insert(re.acts.begin() + static_cast<long>(rng.below(static_cast<uint32_t>(re.acts.size() + 1))), t); }
 			if (!re.acts.empty()) op.reactions.push_back(re);
 		}
 	}
@@ -362,6 +366,7 @@ struct Gen {
 		if (P == "C11") { do_replica = history && rng.chance(2, 3); do_replay_self = history && !do_replica; }
 		if (P == "C17") { do_copy = true; }
 		if (P == "C16") { do_logger_ops = log && rng.chance(2, 3); }
+		logger_midop = log && rng.chance(P == "C16" ? 40u : 10u, 100);
 		if (P == "C04") { hostility = rng.chance(1, 3) ? 20 : 0; redirect = 100 - hostility; react_density = 100; }
 		if (P == "C03") { if (hostility + redirect < 60) { hostility = 40; redirect = 40; } react_density = 100; }
 		if (do_replica) { c.replicas = static_cast<uint8_t>(1 + rng.below(2)); do_serial = false; do_crash = false; do_replay_self = false; }
@@ -390,6 +395,7 @@ struct Gen {
 		if (do_copy) W(OP_COPY, 2);
 		if (do_replay_self) W(OP_REPLAY_TRANSITION, 5);
 		if (c.replicas) W(OP_DELIVER, 6);
+		if (c.replicas && rng.chance(1, 2)) { c.lossy = 1; W(OP_CHANNEL_DROP, 2); W(OP_CHANNEL_DUP, 2); W(OP_CHANNEL_SWAP, 2); }
 		if (do_logger_ops) { W(OP_LOGGER_ATTACH, 2); W(OP_LOGGER_DETACH, 2); }
 		#undef W
 
